@@ -19,7 +19,7 @@ TRUSTED_BASE = [
     "Coq 8.16.1 kernel (coqc full .vo build); no native_compute; vm_compute only in the sample cross-check of the extraction route",
     "axioms: none (Print Assumptions under every property theorem must say 'Closed under the global context')",
     "hand-written Gallina model of the Go code (coq/Model), tied to /repo by the correspondence runs of this check",
-    "extraction to OCaml with ExtrOcamlBasic only (its Extract Inductive directives for bool, option, unit, list, prod, sumbool, sumor; no Extract Constant), OCaml 4.13.1, ocaml/driver.ml (case reader, printers)",
+    "extraction to OCaml with ExtrOcamlBasic only (its Extract Inductive directives for bool, option, unit, list, prod, sumbool, sumor and its Extract Inlined Constant andb => (&&), orb => (||); no directive of ours), OCaml 4.13.1, ocaml/driver.ml (case reader, printers)",
     "Go harness (generators, dump through the verif-tagged hooks of /repo/verif_hooks.go, observation of the real library), Go toolchain",
     "strconv.ParseFloat and fmt %q/%d/%f/%t renderings are taken from Go as oracles, not modelled",
 ]
@@ -47,6 +47,16 @@ def gate():
             txt2 = re.sub(r"\(\*.*?\*\)", "", txt, flags=re.S)
             for m in re.finditer(FORBIDDEN, txt2):
                 bad.append("%s: %s" % (os.path.relpath(path, VERIF), m.group(0)))
+            # Variable / Hypothesis / Context outside a section declare axioms
+            depth = 0
+            for ln in txt2.splitlines():
+                t = ln.strip()
+                if re.match(r"Section\s+\w+\s*\.", t):
+                    depth += 1
+                elif re.match(r"End\s+\w+\s*\.", t):
+                    depth = max(0, depth - 1)
+                elif depth == 0 and re.match(r"(Variable|Variables|Hypothesis|Hypotheses|Context)\b", t):
+                    bad.append("%s: %s outside a section" % (os.path.relpath(path, VERIF), t[:60]))
     return bad
 
 
